@@ -1,7 +1,170 @@
-"""Self-validation of the checkers on scratch copies (DESIGN.md section 8).  Placeholder until the
-variant catalogue is populated: reports that nothing was run and succeeds."""
+"""Self-validation of the checkers on scratch copies of the CURRENT tree (DESIGN.md section 8).
+
+The variant catalogue lives on disk under /verif and is applied, one variant per scratch copy, to a
+copy of the source files of the repository under analysis (made outside /repo and /verif, removed
+straight afterwards).  Nothing of the repository is executed: every variant is decided by the same
+static check as the unchanged tree, pointed at the copy.
+
+  seeded/<id>/patch.diff            a property-breaking change confirmed by hand   -> the check must exit 1
+                                    and one of the rules recorded in meta.json must be among those that fire
+  selftest/unfix/<commit>.diff      the diff of a `fix:` commit, applied in reverse (the defect returns)
+                                    -> the check must exit 1 with the rule recorded in known_findings.json
+  selftest/benign/<id>/patch.diff   a behaviour-preserving refactor of the anchored code -> the check must exit 0
+
+A variant whose patch does not apply to the tree under analysis is reported as skipped (the tree is
+not the one the catalogue was cut for); a variant whose verdict differs from the expected one makes
+the thorough run fail as ANALYSIS-ERROR (exit 2): the checker, not the repository, is at fault.
+"""
+import json
+import os
+import shutil
+import subprocess
+import sys
+import tempfile
+import time
+from concurrent.futures import ThreadPoolExecutor
+
+from .core import VERIF, DEFAULT_REPO, load_known
+
+KEEP_EXT = {".py", ".pyx", ".pxd", ".c", ".h", ".toml", ".cfg", ".in", ".md", ".txt", ".yml", ".yaml", ".json"}
+MAX_FILE = 2_000_000
 
 
-def run(pids=None, jobs=16, repo="/repo", attach=False):
-    print("selftest: no variants registered yet for", pids or "any property")
+def catalogue(pids=None):
+    out = []
+    sd = os.path.join(VERIF, "seeded")
+    if os.path.isdir(sd):
+        for name in sorted(os.listdir(sd)):
+            mp = os.path.join(sd, name, "meta.json")
+            pp = os.path.join(sd, name, "patch.diff")
+            if not (os.path.exists(mp) and os.path.exists(pp)):
+                continue
+            m = json.load(open(mp))
+            if not m.get("detected"):
+                continue          # recorded as a miss in DESIGN.md; nothing to expect
+            out.append({"kind": "seeded", "name": name, "property": m["property"], "patch": pp, "reverse": False,
+                        "expect": 1, "rules": m.get("detected_by") or []})
+    bd = os.path.join(VERIF, "selftest", "benign")
+    if os.path.isdir(bd):
+        for name in sorted(os.listdir(bd)):
+            mp = os.path.join(bd, name, "meta.json")
+            pp = os.path.join(bd, name, "patch.diff")
+            if not (os.path.exists(mp) and os.path.exists(pp)):
+                continue
+            m = json.load(open(mp))
+            for pid in m.get("check_with") or [m["property"]]:
+                out.append({"kind": "benign", "name": name, "property": pid, "patch": pp, "reverse": False,
+                            "expect": 0, "rules": []})
+    ud = os.path.join(VERIF, "selftest", "unfix")
+    ip = os.path.join(ud, "index.json")
+    if os.path.exists(ip):
+        for ent in json.load(open(ip)):
+            pp = os.path.join(ud, ent["patch"])
+            if os.path.exists(pp):
+                out.append({"kind": "unfix", "name": ent["name"], "property": ent["property"], "patch": pp,
+                            "reverse": True, "expect": 1, "rules": ent.get("rules") or []})
+    if pids:
+        out = [v for v in out if v["property"] in pids]
+    return out
+
+
+def copy_sources(repo, dst):
+    n = 0
+    for root, dirs, files in os.walk(repo):
+        dirs[:] = [d for d in dirs if d not in (".git", "__pycache__", "build", "dist", ".pytest_cache") and not d.endswith(".egg-info")]
+        rel = os.path.relpath(root, repo)
+        for fn in files:
+            if os.path.splitext(fn)[1].lower() not in KEEP_EXT:
+                continue
+            sp = os.path.join(root, fn)
+            try:
+                if os.path.getsize(sp) > MAX_FILE and not fn.endswith((".c", ".py", ".pyx", ".h")):
+                    continue
+            except OSError:
+                continue
+            dp = os.path.join(dst, rel)
+            os.makedirs(dp, exist_ok=True)
+            shutil.copy2(sp, os.path.join(dp, fn))
+            n += 1
+    return n
+
+
+def run_variant(v, repo):
+    t0 = time.time()
+    tmp = tempfile.mkdtemp(prefix="hvst-")
+    res = dict(v)
+    try:
+        copy_sources(repo, tmp)
+        cmd = ["patch", "-p1", "-s", "-F3", "--no-backup-if-mismatch", "-d", tmp, "-i", v["patch"]]
+        if v["reverse"]:
+            cmd.insert(1, "-R")
+        else:
+            cmd.insert(1, "-N")
+        p = subprocess.run(cmd, capture_output=True, text=True)
+        if p.returncode != 0:
+            res.update(status="skipped", detail="patch does not apply to the tree under analysis: " + (p.stdout + p.stderr).strip()[:200])
+            return res
+        env = dict(os.environ)
+        env["PYTHONPATH"] = VERIF + os.pathsep + env.get("PYTHONPATH", "")
+        env["HV_INNER"] = "1"
+        c = subprocess.run([sys.executable, "-m", "hyverif.cli", "check", v["property"], "--tier", "quick", "--repo", tmp, "--no-write"],
+                           capture_output=True, text=True, cwd=VERIF, env=env)
+        lines = c.stdout.splitlines()
+        fired = sorted({l.split("violated:")[1].split()[0] for l in lines if "violated:" in l})
+        first = [l.strip().replace(tmp, "<copy>")[:300] for l in lines if "violated:" in l or "ANALYSIS-ERROR" in l][:3]
+        ok = c.returncode == v["expect"]
+        if ok and v["expect"] == 1 and v["rules"]:
+            ok = bool(set(fired) & set(v["rules"]))
+        res.update(status="ok" if ok else "mismatch", exit=c.returncode, fired=fired, report=first)
+        return res
+    finally:
+        shutil.rmtree(tmp, ignore_errors=True)
+        res["wall_s"] = round(time.time() - t0, 2)
+
+
+def run(pids=None, jobs=16, repo=DEFAULT_REPO, attach=False):
+    vs = catalogue(pids)
+    if not vs:
+        print("selftest: no variants in the catalogue for", pids or "any property")
+        return 0
+    t0 = time.time()
+    heavy = {"C05", "C06", "C08", "C10"}      # checks that run the range analysis use their own process pool
+    nj = max(1, min(jobs, 16))
+    if any(v["property"] in heavy for v in vs):
+        nj = min(nj, 4)
+    with ThreadPoolExecutor(nj) as ex:
+        results = list(ex.map(lambda v: run_variant(v, repo), vs))
+    bad = [r for r in results if r["status"] == "mismatch"]
+    skipped = [r for r in results if r["status"] == "skipped"]
+    for r in results:
+        tag = {"ok": "ok      ", "mismatch": "MISMATCH", "skipped": "skipped "}[r["status"]]
+        print(f"   selftest {tag} {r['property']} {r['kind']:<7} {r['name']:<28} expect exit {r['expect']}"
+              + (f" got {r.get('exit')} fired={','.join(r.get('fired', []))[:80]}" if r["status"] != "skipped" else " -- " + r.get("detail", "")[:120]))
+    print(f"== selftest: variants={len(results)} ok={len(results) - len(bad) - len(skipped)} mismatched={len(bad)} "
+          f"skipped={len(skipped)} wall={time.time() - t0:.1f}s")
+    if attach and pids:
+        for pid in pids:
+            ep = os.path.join(VERIF, "evidence", pid + ".json")
+            if not os.path.exists(ep):
+                continue
+            ev = json.load(open(ep))
+            mine = [r for r in results if r["property"] == pid]
+            ev["coverage"]["selftest"] = {
+                "what": "the same static check, pointed at scratch copies of the current tree with one variant applied each",
+                "variants": len(mine),
+                "seeded_detected": sum(1 for r in mine if r["kind"] == "seeded" and r["status"] == "ok"),
+                "reverted_fixes_detected": sum(1 for r in mine if r["kind"] == "unfix" and r["status"] == "ok"),
+                "benign_silent": sum(1 for r in mine if r["kind"] == "benign" and r["status"] == "ok"),
+                "mismatched": [r["name"] for r in mine if r["status"] == "mismatch"],
+                "skipped": [r["name"] for r in mine if r["status"] == "skipped"],
+                "results": [{k: r.get(k) for k in ("kind", "name", "expect", "exit", "fired", "status", "report", "wall_s")} for r in mine],
+            }
+            ev["wall_s"] = round(ev.get("wall_s", 0) + time.time() - t0, 3)
+            with open(ep, "w") as f:
+                json.dump(ev, f, indent=1, default=str)
+    if bad:
+        for r in bad:
+            print(f"ANALYSIS-ERROR property={r['property']} selftest variant {r['kind']}/{r['name']}: expected exit {r['expect']}"
+                  f"{' with one of ' + ','.join(r['rules']) if r['rules'] else ''}, got exit {r.get('exit')} fired={r.get('fired')}")
+        return 2
     return 0
